@@ -870,3 +870,566 @@ Proof.
       * now inversion Hu.
     + destruct nid as [i|]; [destruct (k_ext k)|]; now inversion Hu.
 Qed.
+
+(* ---------------------------------------------------------------------------------- *)
+(* the specification system: rows are decoded with the columns the node encoded them     *)
+(* with — for all histories of events, calls and interleavings                           *)
+(* ---------------------------------------------------------------------------------- *)
+
+Section Spec.
+Variable D : schema.
+Variable ST : nat -> stmt.
+Variable ns : nat.
+Variable init : nat -> meta.
+
+(* the metadata id is a digest of the columns; ids are never empty; statement ids / texts are
+   digests / the texts themselves: distinct statements have distinct ones *)
+Hypothesis mid_cols : forall s v v', mid_of D s v = mid_of D s v' -> cols_of D s v = cols_of D s v'.
+Hypothesis mid_nonempty : forall s v, mid_of D s v <> [].
+Hypothesis ids_inj : forall s s', s_id (ST s) = s_id (ST s') -> s = s'.
+Hypothesis text_inj : forall s s', s_text (ST s) = s_text (ST s') -> s = s'.
+
+(* metadata that is safe to hold for statement s: no columns (never used for decoding), or no id
+   (never confirmed by a node), or exactly what the database defines for that id *)
+Definition meta_ok (s : nat) (m : meta) : Prop :=
+  m_count m = 0 \/ m_id m = None \/ exists v, m_id m = Some (mid_of D s v) /\ m_cols m = cols_of D s v.
+
+Hypothesis init_ok : forall s, meta_ok s (init s).
+
+Definition target (cs : cstate) : option nat :=
+  match cs with
+  | CS_exec1 a _ | CS_prep a | CS_exec2 a _ => Some (xa_stmt a)
+  | CS_bprep _ p => Some p
+  | _ => None
+  end.
+
+Definition faithful_resp (ext uc : bool) (m : meta) (r : resp) (enc : list col) (p : payload) : Prop :=
+  forall b u, r = RRows b -> used_meta ext (cp_cached ext uc m) b = Ok u ->
+    m_cols u = enc /\ rb_paging b = p_paging p /\ rb_nrows b = p_nrows p /\ rb_cells b = p_cells p.
+
+Definition inbox_ok (k : crec) (r : resp) (enc : list col) (p : payload) : Prop :=
+  (forall m, carries r m -> exists s, target (k_st k) = Some s /\ meta_ok s m) /\
+  (forall a m, k_x k = Some a -> snap_of (k_st k) = Some m ->
+               (k_ext k = true \/ xa_use_cached a = false) ->
+               faithful_resp (k_ext k) (xa_use_cached a) m r enc p).
+
+Record sinv (st : sstate) : Prop := {
+  si_reach : greach ST init (s_g st);
+  si_cells : forall s, meta_ok s (g_cells (s_g st) s);
+  si_snaps : forall c a q m, k_x (g_calls (s_g st) c) = Some a ->
+               In (q, Some m) (k_sent (g_calls (s_g st) c)) -> meta_ok (xa_stmt a) m;
+  si_out : forall c q, s_out st c = Some q ->
+             s_inbox st c = None /\ waiting (k_st (g_calls (s_g st) c)) = true /\ last_sent (s_g st) c = Some q;
+  si_inbox : forall c r enc p, s_inbox st c = Some (r, enc, p) ->
+             s_out st c = None /\ waiting (k_st (g_calls (s_g st) c)) = true /\
+             inbox_ok (g_calls (s_g st) c) r enc p;
+  si_quiet : forall c, waiting (k_st (g_calls (s_g st) c)) = false -> s_out st c = None /\ s_inbox st c = None;
+  si_ext : forall c, k_st (g_calls (s_g st) c) <> CS_idle ->
+             k_ext (g_calls (s_g st) c) = n_ext (s_nodes st (s_route st c));
+  si_done : forall c a u pg nr cl, k_x (g_calls (s_g st) c) = Some a ->
+             k_st (g_calls (s_g st) c) = CS_done (O_rows u pg nr cl) ->
+             (k_ext (g_calls (s_g st) c) = true \/ xa_use_cached a = false) ->
+             exists enc p, s_enc st c = Some (enc, p) /\ m_cols u = enc /\
+                           pg = p_paging p /\ nr = p_nrows p /\ cl = p_cells p
+}.
+
+Lemma stmt_of_id_sound k id s : stmt_of_id ST k id = Some s -> s_id (ST s) = id.
+Proof.
+  induction k as [|k IH]; simpl; [discriminate|].
+  destruct (bytes_eqb (s_id (ST k)) id) eqn:E; [|exact IH].
+  intros H; inversion H; subst. now apply bytes_eqb_eq.
+Qed.
+
+Lemma stmt_of_text_sound k t s : stmt_of_text ST k t = Some s -> s_text (ST s) = t.
+Proof.
+  induction k as [|k IH]; simpl; [discriminate|].
+  destruct (N.eqb (s_text (ST k)) t) eqn:E; [|exact IH].
+  intros H; inversion H; subst. now apply N.eqb_eq.
+Qed.
+
+Lemma node_answer_ext n q p n' r enc : node_answer D ST ns n q p = (n', r, enc) -> n_ext n' = n_ext n.
+Proof.
+  destruct q as [f|t|bf]; simpl.
+  - destruct (stmt_of_id ST ns (f_id f)) as [s|]; [|intros H; now inversion H].
+    destruct (negb (n_prep n s)); [intros H; now inversion H|].
+    destruct (cols_of D s (n_ver n s)); [intros H; now inversion H|].
+    destruct (n_ext n) eqn:EN.
+    + destruct (f_rmid f); [|intros H; inversion H; subst; assumption].
+      destruct (bytes_eqb _ _); intros H; inversion H; subst; assumption.
+    + intros H; inversion H; subst; assumption.
+  - destruct (stmt_of_text ST ns t); intros H; inversion H; reflexivity.
+  - destruct (batch_unprepared ST ns n (bf_items bf)); intros H; now inversion H.
+Qed.
+
+Lemma node_event_ext n e : n_ext (node_event n e) = n_ext n.
+Proof. destruct e; reflexivity. Qed.
+
+(* what the last request of a waiting call is *)
+Lemma last_sent_waiting k :
+  call_ok ST k -> waiting (k_st k) = true ->
+  match k_st k with
+  | CS_exec1 a m | CS_exec2 a m =>
+      k_x k = Some a /\ exists rest, k_sent k = (Q_execute (mk_exec_frame (ST (xa_stmt a)) (k_ext k) a m), Some m) :: rest
+  | CS_prep a => k_x k = Some a /\ exists rest, k_sent k = (Q_prepare (s_text (ST (xa_stmt a))), None) :: rest
+  | CS_batch b => k_x k = None /\ exists rest, k_sent k = (Q_batch (mk_batch_frame ST b), None) :: rest
+  | CS_bprep b p => k_x k = None /\ exists rest, k_sent k = (Q_prepare (s_text (ST p)), None) :: rest
+  | _ => False
+  end.
+Proof.
+  unfold call_ok. intros H W. destruct (k_x k) as [a|] eqn:Hx.
+  - destruct (k_st k) eqn:ECS; simpl in W; try discriminate W; inversion H; subst; simpl; eauto.
+  - destruct H as [H|[b H]]; [rewrite H in W; discriminate|].
+    destruct (k_st k) eqn:ECS; simpl in W; try discriminate W; inversion H; subst; simpl; eauto.
+Qed.
+
+(* the answer of a specification node is sound for the call that asked *)
+Lemma node_answer_ok k n q p n' r enc :
+  call_ok ST k -> waiting (k_st k) = true ->
+  (exists rest om, k_sent k = (q, om) :: rest) ->
+  k_ext k = n_ext n ->
+  (forall a m, k_x k = Some a -> snap_of (k_st k) = Some m -> meta_ok (xa_stmt a) m) ->
+  node_answer D ST ns n q p = (n', r, enc) ->
+  inbox_ok k r enc p.
+Proof.
+  intros HK W [rest [om Hsent]] Hext Hsnap HA. unfold inbox_ok, faithful_resp.
+  pose proof (last_sent_waiting k HK W) as LS.
+  destruct (k_st k) as [|a m|a|a|a m|b|b pp|o] eqn:ECS; try contradiction.
+  - (* exec1 *) destruct LS as [Hx [rest' Hs']]. rewrite Hs' in Hsent. inversion Hsent; subst q om rest'.
+    clear Hsent. simpl in HA.
+    destruct (stmt_of_id ST ns (s_id (ST (xa_stmt a)))) as [s|] eqn:SI.
+    2:{ inversion HA; subst. split; [intros m0 [[id E]|[b [i [cols [E _]]]]]; discriminate|].
+        intros a0 m0 _ _ _ b u E; discriminate. }
+    assert (s = xa_stmt a) as -> by (apply ids_inj; now apply stmt_of_id_sound in SI).
+    destruct (negb (n_prep n (xa_stmt a))).
+    { inversion HA; subst. split; [intros m0 [[id E]|[b [i [cols [E _]]]]]; discriminate|].
+      intros a0 m0 _ _ _ b u E; discriminate. }
+    destruct (cols_of D (xa_stmt a) (n_ver n (xa_stmt a))) as [|c0 cr] eqn:EC.
+    { inversion HA; subst. split; [intros m0 [[id E]|[b [i [cols [E _]]]]]; discriminate|].
+      intros a0 m0 _ _ _ b u E; discriminate. }
+    specialize (Hsnap a m Hx eq_refl).
+    rewrite <- Hext in HA. destruct (k_ext k) eqn:EXT.
+    + (* node with the extension *)
+      assert (RM : cp_rmid true (xa_use_cached a) m = Some (match m_id m with Some i => i | None => [] end) \/
+                   (cp_rmid true (xa_use_cached a) m = Some [] /\ cp_skip true (xa_use_cached a) m = false)).
+      { unfold cp_rmid, cp_cached. destruct (cp_skip true (xa_use_cached a) m); auto. }
+      destruct (cp_rmid true (xa_use_cached a) m) as [i|] eqn:ERM; [|destruct RM as [RM|[RM _]]; discriminate].
+      destruct (bytes_eqb i (mid_of D (xa_stmt a) (n_ver n (xa_stmt a)))) eqn:EI.
+      * apply bytes_eqb_eq in EI. subst i.
+        destruct (cp_skip true (xa_use_cached a) m) eqn:SK.
+        -- inversion HA; subst. split; [intros m0 [[id E]|[b [i [cols [E [E2 _]]]]]]; [discriminate|inversion E; subst; discriminate]|].
+           intros a0 m0 Hx0 Hm0 _ b u E Hu. rewrite Hx in Hx0. inversion Hx0; subst a0. simpl in Hm0; inversion Hm0; subst m0.
+           inversion E; subst b. simpl. unfold used_meta in Hu. simpl in Hu. unfold cp_cached in Hu. rewrite SK in Hu.
+           inversion Hu; subst u. repeat split; try reflexivity.
+           destruct RM as [RM|[_ RM]]; [|discriminate].
+           inversion RM as [RM']. destruct (m_id m) as [i|] eqn:EID.
+           ++ destruct Hsnap as [Hz|[Hn|[v [Hv Hc]]]].
+              ** apply cp_skip_nonempty in SK. contradiction.
+              ** congruence.
+              ** rewrite Hc, <- EC. apply mid_cols. congruence.
+           ++ exfalso. eapply mid_nonempty. eassumption.
+        -- inversion HA; subst. split; [intros m0 [[id E]|[b [i [cols [E [E2 _]]]]]]; [discriminate|inversion E; subst; discriminate]|].
+           intros a0 m0 Hx0 Hm0 _ b u E Hu. inversion E; subst b. unfold used_meta in Hu. simpl in Hu.
+           inversion Hu; subst u. simpl. repeat split; reflexivity.
+      * inversion HA; subst. split.
+        -- intros m0 [[id E]|[b [i' [cols [E [E2 E3]]]]]]; [discriminate|]. inversion E; subst b. simpl in E2.
+           inversion E2; subst. exists (xa_stmt a). split; [reflexivity|]. right; right.
+           eexists. simpl. split; [reflexivity|]. now rewrite EC.
+        -- intros a0 m0 Hx0 Hm0 _ b u E Hu. inversion E; subst b. unfold used_meta in Hu. simpl in Hu.
+           inversion Hu; subst u. simpl. repeat split; reflexivity.
+    + (* node without the extension *)
+      inversion HA; subst. split.
+      * intros m0 [[id E]|[b [i [cols [E [E2 _]]]]]]; [discriminate|]. inversion E; subst b. simpl in E2.
+        destruct (cp_skip false (xa_use_cached a) m); discriminate.
+      * intros a0 m0 Hx0 Hm0 Hf b u E Hu. rewrite Hx in Hx0. inversion Hx0; subst a0.
+        destruct Hf as [Hf|Hf]; [discriminate|].
+        assert (SK : cp_skip false (xa_use_cached a) m = false).
+        { unfold cp_skip. rewrite Hf. destruct (m_count m =? 0); reflexivity. }
+        rewrite SK in E. inversion E; subst b. unfold used_meta in Hu. simpl in Hu. inversion Hu; subst u.
+        simpl. repeat split; reflexivity.
+  - (* prep *) destruct LS as [Hx [rest' Hs']]. rewrite Hs' in Hsent. inversion Hsent; subst q om rest'.
+    simpl in HA. destruct (stmt_of_text ST ns (s_text (ST (xa_stmt a)))) as [s|] eqn:SI.
+    2:{ inversion HA; subst. split; [intros m0 [[id E]|[b [i [cols [E _]]]]]; discriminate|].
+        intros a0 m0 _ Hm0; discriminate. }
+    assert (s = xa_stmt a) as -> by (apply text_inj; now apply stmt_of_text_sound in SI).
+    inversion HA; subst. split; [|intros a0 m0 _ Hm0; discriminate].
+    intros m0 [[id E]|[b [i [cols [E _]]]]]; [|discriminate]. inversion E; subst.
+    exists (xa_stmt a). split; [reflexivity|].
+    destruct (late D (xa_stmt a)); [left; reflexivity|].
+    destruct (n_ext n); [|right; left; reflexivity].
+    right; right. eexists. simpl. split; reflexivity.
+  - (* exec2 *) destruct LS as [Hx [rest' Hs']]. rewrite Hs' in Hsent. inversion Hsent; subst q om rest'.
+    clear Hsent. simpl in HA.
+    destruct (stmt_of_id ST ns (s_id (ST (xa_stmt a)))) as [s|] eqn:SI.
+    2:{ inversion HA; subst. split; [intros m0 [[id E]|[b [i [cols [E _]]]]]; discriminate|].
+        intros a0 m0 _ _ _ b u E; discriminate. }
+    assert (s = xa_stmt a) as -> by (apply ids_inj; now apply stmt_of_id_sound in SI).
+    destruct (negb (n_prep n (xa_stmt a))).
+    { inversion HA; subst. split; [intros m0 [[id E]|[b [i [cols [E _]]]]]; discriminate|].
+      intros a0 m0 _ _ _ b u E; discriminate. }
+    destruct (cols_of D (xa_stmt a) (n_ver n (xa_stmt a))) as [|c0 cr] eqn:EC.
+    { inversion HA; subst. split; [intros m0 [[id E]|[b [i [cols [E _]]]]]; discriminate|].
+      intros a0 m0 _ _ _ b u E; discriminate. }
+    specialize (Hsnap a m Hx eq_refl).
+    rewrite <- Hext in HA. destruct (k_ext k) eqn:EXT.
+    + assert (RM : cp_rmid true (xa_use_cached a) m = Some (match m_id m with Some i => i | None => [] end) \/
+                   (cp_rmid true (xa_use_cached a) m = Some [] /\ cp_skip true (xa_use_cached a) m = false)).
+      { unfold cp_rmid, cp_cached. destruct (cp_skip true (xa_use_cached a) m); auto. }
+      destruct (cp_rmid true (xa_use_cached a) m) as [i|] eqn:ERM; [|destruct RM as [RM|[RM _]]; discriminate].
+      destruct (bytes_eqb i (mid_of D (xa_stmt a) (n_ver n (xa_stmt a)))) eqn:EI.
+      * apply bytes_eqb_eq in EI. subst i.
+        destruct (cp_skip true (xa_use_cached a) m) eqn:SK.
+        -- inversion HA; subst. split; [intros m0 [[id E]|[b [i [cols [E [E2 _]]]]]]; [discriminate|inversion E; subst; discriminate]|].
+           intros a0 m0 Hx0 Hm0 _ b u E Hu. rewrite Hx in Hx0. inversion Hx0; subst a0. simpl in Hm0; inversion Hm0; subst m0.
+           inversion E; subst b. simpl. unfold used_meta in Hu. simpl in Hu. unfold cp_cached in Hu. rewrite SK in Hu.
+           inversion Hu; subst u. repeat split; try reflexivity.
+           destruct RM as [RM|[_ RM]]; [|discriminate].
+           inversion RM as [RM']. destruct (m_id m) as [i|] eqn:EID.
+           ++ destruct Hsnap as [Hz|[Hn|[v [Hv Hc]]]].
+              ** apply cp_skip_nonempty in SK. contradiction.
+              ** congruence.
+              ** rewrite Hc, <- EC. apply mid_cols. congruence.
+           ++ exfalso. eapply mid_nonempty. eassumption.
+        -- inversion HA; subst. split; [intros m0 [[id E]|[b [i [cols [E [E2 _]]]]]]; [discriminate|inversion E; subst; discriminate]|].
+           intros a0 m0 Hx0 Hm0 _ b u E Hu. inversion E; subst b. unfold used_meta in Hu. simpl in Hu.
+           inversion Hu; subst u. simpl. repeat split; reflexivity.
+      * inversion HA; subst. split.
+        -- intros m0 [[id E]|[b [i' [cols [E [E2 E3]]]]]]; [discriminate|]. inversion E; subst b. simpl in E2.
+           inversion E2; subst. exists (xa_stmt a). split; [reflexivity|]. right; right.
+           eexists. simpl. split; [reflexivity|]. now rewrite EC.
+        -- intros a0 m0 Hx0 Hm0 _ b u E Hu. inversion E; subst b. unfold used_meta in Hu. simpl in Hu.
+           inversion Hu; subst u. simpl. repeat split; reflexivity.
+    + inversion HA; subst. split.
+      * intros m0 [[id E]|[b [i [cols [E [E2 _]]]]]]; [discriminate|]. inversion E; subst b. simpl in E2.
+        destruct (cp_skip false (xa_use_cached a) m); discriminate.
+      * intros a0 m0 Hx0 Hm0 Hf b u E Hu. rewrite Hx in Hx0. inversion Hx0; subst a0.
+        destruct Hf as [Hf|Hf]; [discriminate|].
+        assert (SK : cp_skip false (xa_use_cached a) m = false).
+        { unfold cp_skip. rewrite Hf. destruct (m_count m =? 0); reflexivity. }
+        rewrite SK in E. inversion E; subst b. unfold used_meta in Hu. simpl in Hu. inversion Hu; subst u.
+        simpl. repeat split; reflexivity.
+  - (* batch *) destruct LS as [Hx [rest' Hs']]. rewrite Hs' in Hsent. inversion Hsent; subst q om rest'.
+    simpl in HA. destruct (batch_unprepared ST ns n _); inversion HA; subst;
+      (split; [intros m0 [[id E]|[bb [i [cols [E _]]]]]; discriminate | intros a0 m0 _ Hm0; discriminate]).
+  - (* bprep *) destruct LS as [Hx [rest' Hs']]. rewrite Hs' in Hsent. inversion Hsent; subst q om rest'.
+    simpl in HA. destruct (stmt_of_text ST ns (s_text (ST pp))) as [s|] eqn:SI.
+    2:{ inversion HA; subst. split; [intros m0 [[id E]|[bb [i [cols [E _]]]]]; discriminate|].
+        intros a0 m0 _ Hm0; discriminate. }
+    assert (s = pp) as -> by (apply text_inj; now apply stmt_of_text_sound in SI).
+    inversion HA; subst. split; [|intros a0 m0 _ Hm0; discriminate].
+    intros m0 [[id E]|[bb [i [cols [E _]]]]]; [|discriminate]. inversion E; subst.
+    exists pp. split; [reflexivity|].
+    destruct (late D pp); [left; reflexivity|].
+    destruct (n_ext n); [|right; left; reflexivity].
+    right; right. eexists. simpl. split; reflexivity.
+Qed.
+
+(* ---- helper facts about one delivered response ---- *)
+Lemma recv_store_target ext cells cs r s u cs' oq :
+  call_recv ST ext cells cs r = Some (Some (s, u), cs', oq) -> target cs = Some s.
+Proof.
+  intros H. destruct cs; simpl in H; try discriminate; simpl.
+  - destruct (resp_parse_fails _ _ r); [discriminate|].
+    assert (HS : option_map (fun m => (xa_stmt a, m)) (exec_store ext (cp_cached ext (xa_use_cached a) snap) (cells (xa_stmt a)) r) = Some (s, u))
+      by (destruct r; inversion H; reflexivity).
+    destruct (exec_store _ _ _ r); inversion HS; reflexivity.
+  - destruct r; try discriminate. destruct (negb _); [discriminate|]. inversion H.
+    destruct (reprepare_update _ _); simpl in *; [|discriminate].
+    match goal with HH : Some _ = Some _ |- _ => inversion HH; reflexivity end.
+  - destruct (resp_parse_fails _ _ r); [discriminate|]. inversion H.
+    destruct (exec_store _ _ _ r); simpl in *; [|discriminate].
+    match goal with HH : Some _ = Some _ |- _ => inversion HH; reflexivity end.
+  - destruct r; try discriminate. destruct (find_prepared _ _ _); discriminate.
+  - destruct r; try discriminate. destruct (negb _); [discriminate|]. inversion H.
+    destruct (reprepare_update _ _); simpl in *; [|discriminate].
+    match goal with HH : Some _ = Some _ |- _ => inversion HH; reflexivity end.
+Qed.
+
+Lemma recv_sends_waiting ext cells cs r sto cs' q :
+  call_recv ST ext cells cs r = Some (sto, cs', Some q) -> waiting cs' = true.
+Proof.
+  intros H. destruct cs; simpl in H; try discriminate.
+  - destruct (resp_parse_fails _ _ r); [discriminate|]. destruct r; inversion H; reflexivity.
+  - destruct r; try discriminate. destruct (negb _); discriminate.
+  - destruct (resp_parse_fails _ _ r); discriminate.
+  - destruct r; try discriminate. destruct (find_prepared _ _ _); inversion H; reflexivity.
+  - destruct r; try discriminate. destruct (negb _); inversion H; reflexivity.
+Qed.
+
+Lemma recv_done_rows ext cells cs r sto u pg nr cl oq :
+  call_recv ST ext cells cs r = Some (sto, CS_done (O_rows u pg nr cl), oq) ->
+  (exists a m, (cs = CS_exec1 a m \/ cs = CS_exec2 a m) /\
+               outcome_of ext (cp_cached ext (xa_use_cached a) m) r = O_rows u pg nr cl) \/
+  (exists b, cs = CS_batch b).
+Proof.
+  intros H. destruct cs; simpl in H; try discriminate.
+  - destruct (resp_parse_fails _ _ r); [inversion H|].
+    left. exists a, snap. split; [now left|]. destruct r; inversion H; reflexivity.
+  - destruct r; try (inversion H; fail). destruct (negb _); inversion H.
+  - destruct (resp_parse_fails _ _ r); [inversion H|].
+    left. exists a, snap. split; [now right|]. inversion H; reflexivity.
+  - right. eauto.
+  - destruct r; try (inversion H; fail). destruct (negb _); inversion H.
+Qed.
+
+Lemma waiting_not_idle cs : waiting cs = true -> cs <> CS_idle.
+Proof. destruct cs; simpl; congruence. Qed.
+
+Lemma exec_log_state_args ext a sent rcvd cs :
+  exec_log ST ext a sent rcvd cs ->
+  forall a' m, cs = CS_exec1 a' m \/ cs = CS_exec2 a' m -> a' = a.
+Proof. intros HL a' m [E|E]; subst; inversion HL; reflexivity. Qed.
+
+(* ---- preservation, label by label ---- *)
+Lemma sinv_event st nd e st' : sinv st -> sstep D ST ns st (SL_event nd e) = Some st' -> sinv st'.
+Proof.
+  intros [R C S O I Q X Dn] H. simpl in H. inversion H; subst; clear H.
+  constructor; simpl; try assumption.
+  intros c Hc. rewrite (X c Hc). unfold upd. destruct (Nat.eqb (s_route st c) nd) eqn:E; [|reflexivity].
+  apply Nat.eqb_eq in E. subst nd. now rewrite node_event_ext.
+Qed.
+
+Lemma sinv_serve st c p st' : sinv st -> sstep D ST ns st (SL_serve c p) = Some st' -> sinv st'.
+Proof.
+  intros [R C S O I Q X Dn] H. simpl in H.
+  destruct (s_out st c) as [q|] eqn:EO; [|discriminate].
+  destruct (node_answer D ST ns (s_nodes st (s_route st c)) q p) as [[n' r] enc] eqn:NA.
+  inversion H; subst; clear H.
+  destruct (O c q EO) as [Oi [Ow Ol]].
+  pose proof (reach_call_ok _ _ _ R) as HK.
+  constructor; simpl; try assumption.
+  - intros c' q'. unfold upd. destruct (Nat.eqb c' c) eqn:E; [discriminate|]. apply O.
+  - intros c' r' enc' p'. unfold upd at 1 2. destruct (Nat.eqb c' c) eqn:E.
+    + apply Nat.eqb_eq in E. subst c'. intros HH; inversion HH; subst.
+      split; [reflexivity|]. split; [assumption|].
+      eapply node_answer_ok; try eassumption.
+      * apply HK.
+      * unfold last_sent in Ol. destruct (k_sent (g_calls (s_g st) c)) as [|[q0 om] rest]; [discriminate|].
+        inversion Ol; subst. eauto.
+      * apply X. now apply waiting_not_idle.
+      * intros a m Hx Hm.
+        pose proof (HK c) as K0. unfold call_ok in K0. rewrite Hx in K0.
+        destruct (exec_log_snap_in_sent _ _ _ _ _ _ _ K0 Hm) as [q0 HI]. eapply S; eassumption.
+    + apply I.
+  - intros c' W. unfold upd. destruct (Nat.eqb c' c) eqn:E.
+    + apply Nat.eqb_eq in E. subst c'. congruence.
+    + now apply Q.
+  - intros c' Hc. rewrite (X c' Hc). unfold upd.
+    destruct (Nat.eqb (s_route st c') (s_route st c)) eqn:E; [|reflexivity].
+    apply Nat.eqb_eq in E. rewrite E. symmetry. eapply node_answer_ext. eassumption.
+Qed.
+
+Lemma sinv_tick st c st' : sinv st -> sstep D ST ns st (SL_tick c) = Some st' -> sinv st'.
+Proof.
+  intros [R C S O I Q X Dn] H. simpl in H.
+  destruct (call_tick ST (k_ext (g_calls (s_g st) c)) (g_cells (s_g st)) (k_st (g_calls (s_g st) c)))
+    as [[cs q]|] eqn:E; [|discriminate].
+  assert (HG : gstep ST (s_g st) (GL_tick c) = Some
+            (mkG (g_cells (s_g st))
+                 (upd (g_calls (s_g st)) c
+                    (mkC (k_ext (g_calls (s_g st) c)) (k_x (g_calls (s_g st) c)) cs
+                         ((q, snap_of cs) :: k_sent (g_calls (s_g st) c)) (k_rcvd (g_calls (s_g st) c))))
+                 (g_ann (s_g st)))) by (simpl; now rewrite E).
+  inversion H; subst; clear H.
+  destruct (k_st (g_calls (s_g st) c)) eqn:ECS; simpl in E; try discriminate. inversion E; subst cs q; clear E.
+  assert (NW : waiting (k_st (g_calls (s_g st) c)) = false) by now rewrite ECS.
+  destruct (Q c NW) as [Qo Qi].
+  pose proof (reach_call_ok _ _ _ R c) as K0. unfold call_ok in K0.
+  constructor; simpl.
+  - eapply greach_step; eassumption.
+  - exact C.
+  - intros c' a' q' m'. unfold upd. destruct (Nat.eqb c' c) eqn:E.
+    + apply Nat.eqb_eq in E. subst c'. simpl. intros Hx [EE|HI]; [|eapply S; eassumption].
+      inversion EE; subst. rewrite Hx in K0.
+      assert (a = a') as -> by (rewrite ECS in K0; inversion K0; reflexivity). apply C.
+    + apply S.
+  - intros c' q'. unfold upd. destruct (Nat.eqb c' c) eqn:E.
+    + apply Nat.eqb_eq in E. subst c'. unfold last_sent. simpl. rewrite Nat.eqb_refl. simpl.
+      intros HH. split; [assumption|]. split; [reflexivity|assumption].
+    + intros HH. destruct (O c' q' HH) as [A [B Cc]]. split; [assumption|]. split; [assumption|].
+      unfold last_sent in *. simpl. unfold upd. now rewrite E.
+  - intros c' r' enc' p' HH. unfold upd. destruct (Nat.eqb c' c) eqn:E.
+    + apply Nat.eqb_eq in E. subst c'. congruence.
+    + apply I. assumption.
+  - intros c'. unfold upd. destruct (Nat.eqb c' c) eqn:E; simpl; [discriminate|apply Q].
+  - intros c'. unfold upd at 1 2. destruct (Nat.eqb c' c) eqn:E; simpl; [|apply X].
+    apply Nat.eqb_eq in E. subst c'. intros _. apply X. rewrite ECS. discriminate.
+  - intros c' a' u pg nr cl. unfold upd. destruct (Nat.eqb c' c) eqn:E; simpl; [discriminate|apply Dn].
+Qed.
+
+Lemma sinv_start st c nd (x : xargs + bargs) st' :
+  sinv st ->
+  sstep D ST ns st (match x with inl a => SL_exec c nd a | inr b => SL_batch c nd b end) = Some st' ->
+  sinv st'.
+Proof.
+  intros [R C S O I Q X Dn] H.
+  pose proof (reach_call_ok _ _ _ R c) as K0.
+  set (ext := n_ext (s_nodes st nd)) in *.
+  assert (G : exists cs q, k_st (g_calls (s_g st) c) = CS_idle /\
+            (forall m, snap_of cs = Some m -> exists a, x = inl a /\ m = g_cells (s_g st) (xa_stmt a)) /\
+            waiting cs = true /\ cs <> CS_idle /\ (forall o, cs <> CS_done o) /\
+            let g' := mkG (g_cells (s_g st))
+                       (upd (g_calls (s_g st)) c
+                          (mkC ext (match x with inl a => Some a | inr _ => None end) cs [(q, snap_of cs)] []))
+                       (g_ann (s_g st)) in
+            gstep ST (s_g st) (match x with inl a => GL_exec c ext a | inr b => GL_batch c ext b end) = Some g' /\
+            st' = mkS g' (s_nodes st) (upd (s_route st) c nd) (upd (s_out st) c (Some q))
+                      (upd (s_inbox st) c None) (upd (s_enc st) c None)).
+  { destruct x as [a|b]; simpl in H; fold ext in H.
+    - destruct (k_st (g_calls (s_g st) c)) eqn:E; try discriminate. simpl in H.
+      eexists _, _. split; [reflexivity|]. split; [|split; [|split; [|split; [|split]]]].
+      6:{ simpl. unfold last_sent in H. simpl in H. rewrite upd_same in H. simpl in H.
+          inversion H. reflexivity. }
+      + simpl. intros m EE; inversion EE; subst. eauto.
+      + reflexivity.
+      + discriminate.
+      + discriminate.
+      + simpl. rewrite E. reflexivity.
+    - destruct (k_st (g_calls (s_g st) c)) eqn:E; try discriminate. simpl in H.
+      eexists _, _. split; [reflexivity|]. split; [|split; [|split; [|split; [|split]]]].
+      6:{ simpl. unfold last_sent in H. simpl in H. rewrite upd_same in H. simpl in H.
+          inversion H. reflexivity. }
+      + simpl. discriminate.
+      + reflexivity.
+      + discriminate.
+      + discriminate.
+      + simpl. rewrite E. reflexivity. }
+  destruct G as [cs [q [Eidle [Hsn [W [NI [ND [HG ->]]]]]]]]. clear H.
+  constructor; simpl.
+  - eapply greach_step; eassumption.
+  - exact C.
+  - intros c' a' q' m'. unfold upd. destruct (Nat.eqb c' c) eqn:E; [|apply S].
+    simpl. intros Hx [EE|[]]. inversion EE; subst.
+    destruct (Hsn m' (eq_sym H1)) as [a [-> ->]]. inversion Hx; subst. apply C.
+  - intros c' q'. unfold upd. destruct (Nat.eqb c' c) eqn:E.
+    + intros HH; inversion HH; subst. split; [reflexivity|]. split; [assumption|].
+      unfold last_sent; simpl. unfold upd. rewrite E. reflexivity.
+    + intros HH. destruct (O c' q' HH) as [A [B Cc]]. split; [assumption|]. split; [assumption|].
+      unfold last_sent in *; simpl. unfold upd. now rewrite E.
+  - intros c' r' enc' p'. unfold upd. destruct (Nat.eqb c' c) eqn:E; [discriminate|apply I].
+  - intros c'. unfold upd. destruct (Nat.eqb c' c) eqn:E; simpl; [congruence|apply Q].
+  - intros c'. unfold upd. destruct (Nat.eqb c' c) eqn:E; simpl; [reflexivity|apply X].
+  - intros c' a' u pg nr cl. unfold upd. destruct (Nat.eqb c' c) eqn:E; simpl; [|apply Dn].
+    intros _ EE. exfalso. eapply ND. eassumption.
+Qed.
+
+Lemma sinv_recv st c st' : sinv st -> sstep D ST ns st (SL_recv c) = Some st' -> sinv st'.
+Proof.
+  intros [R C S O I Q X Dn] H. simpl in H.
+  destruct (s_inbox st c) as [[[r enc] p]|] eqn:EI; [|discriminate].
+  destruct (I c r enc p EI) as [Io [Iw [Iann Ifaith]]].
+  set (k := g_calls (s_g st) c) in *.
+  destruct (call_recv ST (k_ext k) (g_cells (s_g st)) (k_st k) r) as [[[sto cs] oq]|] eqn:E.
+  2:{ simpl in H. fold k in H. rewrite E in H. discriminate. }
+  pose proof (reach_call_ok _ _ _ R c) as K0. fold k in K0.
+  pose proof (recv_no_snap _ _ _ _ _ _ _ _ E) as NS.
+  set (cells' := fst (apply_store (s_g st) sto)).
+  set (ann' := snd (apply_store (s_g st) sto)).
+  set (k' := mkC (k_ext k) (k_x k) cs
+               (match oq with Some q => (q, snap_of cs) :: k_sent k | None => k_sent k end) (r :: k_rcvd k)).
+  set (g' := mkG cells' (upd (g_calls (s_g st)) c k') ann').
+  assert (HG : gstep ST (s_g st) (GL_resp c r) = Some g').
+  { simpl. fold k. rewrite E. unfold g', cells', ann'. destruct (apply_store (s_g st) sto); reflexivity. }
+  rewrite HG in H. inversion H; subst st'; clear H.
+  assert (NR : new_request (s_g st) g' c = oq).
+  { unfold new_request, last_sent, g'. simpl. rewrite upd_same. fold k. unfold k'. simpl.
+    destruct oq as [q|]; simpl.
+    - destruct (Nat.eqb _ _) eqn:EE; [apply Nat.eqb_eq in EE; lia|reflexivity].
+    - now rewrite Nat.eqb_refl. }
+  rewrite NR.
+  (* the cells after the step are safe *)
+  assert (C' : forall s, meta_ok s (cells' s)).
+  { intros s. unfold cells'. destruct sto as [[s0 u]|]; simpl; [|apply C].
+    unfold upd. destruct (Nat.eqb s s0) eqn:EE; [|apply C]. apply Nat.eqb_eq in EE. subst s0.
+    pose proof (recv_store_target _ _ _ _ _ _ _ _ E) as TG.
+    destruct (recv_store _ _ _ _ _ _ _ _ _ E) as [_ [[Hc|[a [-> Hcs]]] _]].
+    - destruct (Iann u Hc) as [s' [T' Hok]]. fold k in T'. rewrite TG in T'. inversion T'; subst. exact Hok.
+    - unfold call_ok in K0. destruct (k_x k) as [a0|] eqn:Hx.
+      + assert (a = a0) as -> by (eapply exec_log_state_args; eassumption).
+        assert (SN : snap_of (k_st k) = Some u) by (destruct Hcs as [-> | ->]; reflexivity).
+        destruct (exec_log_snap_in_sent _ _ _ _ _ _ _ K0 SN) as [q HI]. eapply (S c); eassumption.
+      + destruct K0 as [K0|[b K0]].
+        * rewrite K0 in Hcs. destruct Hcs; discriminate.
+        * destruct Hcs as [Hcs|Hcs]; rewrite Hcs in K0; inversion K0. }
+  constructor; simpl.
+  - eapply greach_step; eassumption.
+  - exact C'.
+  - intros c' a' q' m'. unfold upd. destruct (Nat.eqb c' c) eqn:EE; [|apply S].
+    apply Nat.eqb_eq in EE. subst c'. unfold k'. simpl. fold k. intros Hx HI. apply (S c a' q' m').
+    + exact Hx.
+    + fold k. destruct oq as [q0|]; [|exact HI]. destruct HI as [E0|HI]; [|exact HI].
+      rewrite NS in E0. discriminate.
+  - intros c' q'. unfold upd at 1 2. destruct (Nat.eqb c' c) eqn:EE.
+    + apply Nat.eqb_eq in EE. subst c'. intros ->. split; [reflexivity|].
+      unfold last_sent. simpl. rewrite upd_same. unfold k'. simpl.
+      split; [eapply recv_sends_waiting; eassumption|reflexivity].
+    + intros HH. destruct (O c' q' HH) as [A [B Cc]]. split; [assumption|].
+      unfold last_sent in *. simpl. unfold upd. rewrite EE. tauto.
+  - intros c' r' enc' p'. unfold upd at 1 2. destruct (Nat.eqb c' c) eqn:EE; [discriminate|].
+    intros HH. destruct (I c' r' enc' p' HH) as [A [B Cc]]. unfold upd. rewrite EE. tauto.
+  - intros c'. unfold upd. destruct (Nat.eqb c' c) eqn:EE; [|apply Q].
+    unfold k'. simpl. intros W. split; [|reflexivity].
+    destruct oq as [q|]; [|reflexivity]. rewrite (recv_sends_waiting _ _ _ _ _ _ _ E) in W. discriminate.
+  - intros c'. unfold upd. destruct (Nat.eqb c' c) eqn:EE; [|apply X].
+    apply Nat.eqb_eq in EE. subst c'. unfold k'. simpl. intros _. apply X. fold k.
+    now apply waiting_not_idle.
+  - intros c' a' u pg nr cl. unfold upd. destruct (Nat.eqb c' c) eqn:EE; [|apply Dn].
+    apply Nat.eqb_eq in EE. subst c'. unfold k'. simpl. intros Hx Hd Hf. subst cs.
+    destruct (recv_done_rows _ _ _ _ _ _ _ _ _ _ E) as [[a [m [Hcs Ho]]]|[b Hb]].
+    + unfold call_ok in K0. rewrite Hx in K0.
+      assert (a = a') as -> by (eapply exec_log_state_args; eassumption).
+      assert (SN : snap_of (k_st k) = Some m) by (destruct Hcs as [-> | ->]; reflexivity).
+      destruct (outcome_rows _ _ _ _ _ _ _ Ho) as [b [-> [Hu [-> [-> ->]]]]].
+      destruct (Ifaith a' m Hx SN Hf b u eq_refl Hu) as [F1 [F2 [F3 F4]]].
+      exists enc, p. auto.
+    + unfold call_ok in K0. rewrite Hx in K0. rewrite Hb in K0. inversion K0.
+Qed.
+
+Lemma sstep_sinv st l st' : sinv st -> sstep D ST ns st l = Some st' -> sinv st'.
+Proof.
+  intros HI H. destruct l as [c nd a|c nd b|c p|c|c|nd e].
+  - eapply (sinv_start st c nd (inl a)); eassumption.
+  - eapply (sinv_start st c nd (inr b)); eassumption.
+  - eapply sinv_serve; eassumption.
+  - eapply sinv_recv; eassumption.
+  - eapply sinv_tick; eassumption.
+  - eapply sinv_event; eassumption.
+Qed.
+
+Lemma sinit_sinv nodes : sinv (sinit init nodes).
+Proof.
+  constructor; simpl; try discriminate.
+  - exists []. reflexivity.
+  - exact init_ok.
+  - intros c a q m H. discriminate.
+  - auto.
+  - intros c H. exfalso. now apply H.
+  - intros c a u pg nr cl H. discriminate.
+Qed.
+
+Lemma srun_sinv ls : forall st st', sinv st -> srun D ST ns st ls = Some st' -> sinv st'.
+Proof.
+  induction ls as [|l r IH]; intros st st' HI H; simpl in H.
+  - now inversion H; subst.
+  - destruct (sstep D ST ns st l) as [s1|] eqn:E; [|discriminate].
+    eapply IH; [|eassumption]. eapply sstep_sinv; eassumption.
+Qed.
+
+(* C14_faithful *)
+Lemma faithful nodes ls st c a u pg nr cl :
+  srun D ST ns (sinit init nodes) ls = Some st ->
+  let k := g_calls (s_g st) c in
+  k_x k = Some a -> k_st k = CS_done (O_rows u pg nr cl) ->
+  (k_ext k = true \/ xa_use_cached a = false) ->
+  exists enc p, s_enc st c = Some (enc, p) /\ m_cols u = enc /\
+                pg = p_paging p /\ nr = p_nrows p /\ cl = p_cells p.
+Proof.
+  intros HR k Hx Hd Hf. pose proof (srun_sinv ls _ _ (sinit_sinv nodes) HR) as [_ _ _ _ _ _ _ Dn].
+  eapply Dn; eassumption.
+Qed.
+
+(* every run of the specification system projects to a run of the generic system: all the
+   generic theorems apply to it *)
+Lemma srun_greach nodes ls st :
+  srun D ST ns (sinit init nodes) ls = Some st -> greach ST init (s_g st).
+Proof. intros HR. now destruct (srun_sinv ls _ _ (sinit_sinv nodes) HR). Qed.
+End Spec.
